@@ -429,6 +429,8 @@ pub fn build_catalogue() -> Vec<Subject> {
         Vec<Box<u32>> [mem, len]; Vec<Rc<u16>> [mem, len]; VecDeque<Arc<u64>> [mem, len]; [Box<i16>; 4] [mem]; Vec<Vec<Box<u8>>> [mem, len]; Vec<Compact<u32>> [mem, len]; Vec<Compact<u128>> [mem, len]; Vec<Duration> [mem, len]; Vec<NonZeroU32> [mem, len]; Vec<OptionBool> [mem, len]; Vec<Range<u32>> [mem, len]; BTreeMap<Compact<u32>, Vec<u8>> [mem, len]; BinaryHeap<String> [mem, len]; [Option<bytes::Bytes>; 2] [mem]; Result<Vec<u8>, Option<u16>> [mem]; Option<bytes::Bytes> [mem]; (bytes::Bytes, u32) [mem]; (bytes::Bytes, bytes::Bytes) [mem];
         TrC [mem]; TrE [mem]; TrS [mem]; Box<TrC> [mem]; [TrC; 3] [mem]; Rc<TrC> [mem]; Box<TrE> [mem]; Arc<[TrE; 2]> [mem]; [TrS; 2] [mem]; Box<TrS> [mem];
         Arc<[Tr1; 2]> [mem]; Box<Tr3> [mem]; Box<[Tr4; 2]> [mem]; Box<WithCompact> [mem]; [SingleCompact; 2] [mem]; Box<UsesCa> [mem]; [EnumSkip; 2] [mem]; Box<EnumData> [mem];
+        // tuples led by a collection (DecodeLength delegates to the first member)
+        (Vec<u32>, u8) [mem, len]; (BTreeMap<u8, u8>,) [mem, len]; (VecDeque<u16>, String, u8) [mem, len]; (LinkedList<u16>, u8) [mem, len]; (BTreeSet<u16>, Vec<u8>) [mem, len]; (BinaryHeap<u32>, bool) [mem, len]; (Vec<()>, u32) [mem, len];
         // nestings
         Vec<EnumData> [mem, len]; Option<Box<StructNamed>> [mem]; BTreeMap<u16, EnumIdx> [mem, len]; (Vec<u8>, Vec<u16>) [mem, len];
         Vec<Vec<Vec<u32>>> [mem, len]; Vec<Tree> [mem, len]; Box<Tr2> [mem]; Vec<Tr1> [mem, len]; LinkedList<Vec<u16>> [mem, len];
